@@ -7,6 +7,7 @@
 import PercevalModel.Model.C03
 import PercevalModel.Lemmas.C03
 import PercevalModel.Lemmas.C03Mass
+import PercevalModel.Lemmas.C03More
 import PercevalModel.Props.C02
 import Mathlib.LinearAlgebra.Matrix.ConjTranspose
 
@@ -876,23 +877,266 @@ example (keys : List ℕ) : ∀ g g' : ℕ → Option ℕ, (∀ k ∈ keys, g k 
   intro g g' h
   exact List.map_congr_left h
 
+/-! ## 9. the two paths agree; probability by partitions; the photon-number split; threshold 0
+
+Formerly validated by the correspondence only. -/
+
+/-- **the generic path on a Fock member is the convolution of its groups**: for ONE tagged basis state with
+a non-zero coefficient the specification's `probsSV` — `|c · ∏_g perm|² / ∏ t_g! / (|c|² ∏ s_g!)`, summed over
+the annotated outputs that flatten to `t` — gives every outcome the probability of the convolution of the
+groups' distributions.  Any number of groups, any group lengths. -/
+theorem probsSV_fock_eq_conv {m : ℕ} (U : Matrix (Fin m) (Fin m) GQ) (c : GQ) (gs : List Fock)
+    (hc : c ≠ 0) (t : Fock) : get (probsSV U [⟨c, gs⟩]) t = get (probsTagged U gs) t := by
+  rw [probsSV_single U c gs hc]
+  exact tupD_eqv U gs t
+
+/-- tags without photons (`realGroups`: what `separate_state` never produces) do not change the
+convolution — not even the list -/
+theorem probsTagged_drop_vacuum_groups {m : ℕ} (U : Matrix (Fin m) (Fin m) GQ) (gs : List Fock) :
+    probsTagged U (realGroups m gs) = probsTagged U gs :=
+  probsTagged_realGroups U gs
+
+/-- **`_probs_svd_generic` on a Fock member = `_probs_svd_fast` on it** (threshold 0): the recombined
+state vector's squared moduli and the tensor product of the cached group distributions give every outcome
+the same probability. -/
+theorem memberGeneric_fock_eq_memberFast {m : ℕ} (U : Matrix (Fin m) (Fin m) GQ) (w : ℚ) (term : Term)
+    (hc : term.coef ≠ 0) (t : Fock) :
+    get (memberGeneric U ⟨w, [term]⟩) t = get (memberFast U 0 ⟨w, [term]⟩) t := by
+  rw [memberGeneric_eq_spec, memberFast_eq_conv, probsTagged_realGroups]
+  exact probsSV_fock_eq_conv U term.coef term.groups hc t
+
+/-- **probability by partitions = convolution**: `Simulator.probability(BasicState, BasicState)` — the sum
+over all `partition`s of the output among the tag groups of the product of the groups' probabilities, with
+its vacuum shortcut — is the probability the convolution of the groups' distributions gives the output, for
+every `m`-mode output. -/
+theorem probability_eq_conv {m : ℕ} (U : Matrix (Fin m) (Fin m) GQ) (st : AState) (t : Fock)
+    (ht : t.length = m) : probabilityBS U st t = get (probsTagged U (separate st)) t := by
+  unfold probabilityBS
+  by_cases h : (occ st).sum = 0
+  · rw [if_pos h]
+    have hsep : separate st = [occ st] := by
+      unfold separate; rw [if_pos (tagsOf_of_vacuum st h)]
+    have hpt : probsTagged U [occ st] = [(zeros m, 1)] := by
+      show conv [(zeros m, 1)] (probsFock U (occ st)) = _
+      rw [probsFock_vacuum U _ h, conv_unit_right m _ (keysLen_unit m)]
+    rw [hsep, hpt, get_cons, get_nil, add_zero]
+    by_cases h0 : t.sum = 0
+    · rw [if_pos h0, eq_zeros_of_sum_zero m t ht h0]; simp
+    · have : ¬ zeros m = t := by
+        intro e; rw [← e] at h0; exact h0 (zeros_sum m)
+      rw [if_neg h0]; simp [this]
+  · rw [if_neg h]
+    show partSum U (separate st) t = _
+    rw [← get_convR_eq_partSum U _ t ht]
+    exact (convR_eqv U _ t).symm
+
+/-- … hence, for a unitary circuit, `probability(s, t)` is the entry of `probs(s)` at `t` -/
+theorem probability_eq_probs_unitary {m : ℕ} (U : Matrix (Fin m) (Fin m) GQ) (hU : IsUnitary U)
+    (st : AState) (hst : st.length = m) (t : Fock) (ht : t.length = m) :
+    probabilityBS U st t = get (probsBS U st) t := by
+  rw [probability_eq_conv U st t ht, (probsBS_unitary U hU st hst).1 t]
+
+/-- **threshold 0 is no threshold**: `_probs_svd_generic` with the amplitude threshold of `_merge_sv` set to
+0 (vacuum groups appended without a merge, the first group never thresholded, products of squared modulus
+`≤ 0` left out) gives every outcome the probability of the un-thresholded recombination. -/
+theorem memberGenericθ_zero {m : ℕ} (U : Matrix (Fin m) (Fin m) GQ) (mb : Member)
+    (hl : ∀ t ∈ mb.terms, ∀ s ∈ t.groups, s.length = m) (t : Fock) :
+    get (memberGenericθ U 0 mb) t = get (memberGeneric U mb) t := by
+  unfold memberGenericθ memberGeneric
+  exact get_toBsd_congr m _ _
+    (ampsθ_zero U mb.terms _ (fun _ _ => zero_div _) hl) _ t
+
+/-- **the photon-number split of `_preprocess_svd` preserves the mixture**: the sectors of a superposition
+of unequal photon numbers, each normalised and weighted by its share of the squared norm, contribute to every
+outcome exactly what the un-split member contributes.  No hypothesis: any coefficients (zero ones, an
+all-zero sector included), any terms. -/
+theorem splitByN_preserves_mixture {m : ℕ} (U : Matrix (Fin m) (Fin m) GQ) (mb : Member) (t : Fock) :
+    mixAt (probsSV U) (splitByN mb) t = mb.w * get (probsSV U mb.terms) t :=
+  mixAt_splitByN U mb t
+
+/-- the sectors' weights add up to the member's weight -/
+theorem splitByN_weights (mb : Member) (hN : svNorm2 mb.terms ≠ 0) :
+    ((splitByN mb).map (·.w)).sum = mb.w := by
+  rw [splitByN_eq, List.map_map]
+  have : ((photonCounts mb.terms).map
+      ((·.w) ∘ fun n => (⟨mb.w * (svNorm2 (sector mb.terms n) / svNorm2 mb.terms), sector mb.terms n⟩ : Member)))
+      = (photonCounts mb.terms).map fun n => mb.w / svNorm2 mb.terms * svNorm2 (sector mb.terms n) := by
+    apply List.map_congr_left
+    intro n _
+    simp only [Function.comp_apply]
+    ring
+  rw [this, List.sum_map_mul_left, svNorm2_sectors]
+  field_simp
+
+/-- **equal keys of the dict of state vectors have equal distributions** (the hypothesis `hf` of
+`dict_accumulate_preserves_mixture`, now discharged for the specification): two one-component state vectors on
+the same annotated basis state whose coefficients differ by a positive factor have the same output
+distribution -/
+theorem sameKey_equal_distributions {m : ℕ} (U : Matrix (Fin m) (Fin m) GQ) (a b : Member)
+    (h : sameKey a b = true) (t : Fock) :
+    get (probsSV U a.terms) t = get (probsSV U b.terms) t :=
+  sameKey_probsSV U a b h t
+
+/-- **`_preprocess_svd` at precision 0 preserves the mixture** — the whole function: members of weight 0
+dropped, superpositions of unequal photon numbers split, their sectors accumulated in `to_add` and then onto
+equal keys of the trimmed mixture, the split members removed: for every outcome
+`∑_{kept} w · probs = ∑_{input} w · probs`; and the threshold handed to the two paths is 0. -/
+theorem preprocess_preserves_mixture {m : ℕ} (U : Matrix (Fin m) (Fin m) GQ) (ms : List Member)
+    (hw : ∀ mb ∈ ms, 0 ≤ mb.w) (t : Fock) :
+    mixAt (probsSV U) (preprocess 0 0 ms).kept t = mixAt (probsSV U) ms t ∧
+      (preprocess 0 0 ms).θ = 0 := by
+  have h1 := mixAt_filter_pos (probsSV U) ms hw t
+  rw [preprocess_zero]
+  split
+  · refine ⟨?_, rfl⟩
+    show mixAt (probsSV U) (keptSplit _) t = _
+    rw [keptSplit_mixture U _ (fun mb h => hw mb (List.mem_of_mem_filter h)), h1]
+  · exact ⟨h1, rfl⟩
+
+/-- **`Simulator.probs_svd` at precision 0 is the specification mixture** — the whole pipeline of the model
+(`_preprocess_svd` with its split and dict accumulation, the choice between `_probs_svd_fast` and
+`_probs_svd_generic`, their thresholds at 0, the accumulation loop, the final normalisation): every outcome
+gets the probability the normalised mixture `∑ᵢ wᵢ · probsSV(memberᵢ)` gives it, for all mixtures with
+non-negative weights whose terms have non-zero coefficients and `m`-mode groups. -/
+theorem probsSvd_exact {m : ℕ} (U : Matrix (Fin m) (Fin m) GQ) (ms : List Member)
+    (hw : ∀ mb ∈ ms, 0 ≤ mb.w) (hok : ∀ mb ∈ ms, TermsOK m mb) (t : Fock) :
+    get (probsSvd U 0 0 ms) t =
+      get (normalize (probsSVD U (ms.map fun mb => (mb.w, mb.terms)))) t := by
+  unfold probsSvd
+  apply normalize_congr
+  intro t
+  obtain ⟨hmix, hθ⟩ := preprocess_preserves_mixture U ms hw t
+  have hkept : ∀ mb ∈ (preprocess 0 0 ms).kept, TermsOK m mb := by
+    rw [preprocess_zero]
+    split
+    · exact keptSplit_ok m _ (fun mb h => hok mb (List.mem_of_mem_filter h))
+    · exact fun mb h => hok mb (List.mem_of_mem_filter h)
+  have hsup : (preprocess 0 0 ms).superposed = (preprocess 0 0 ms).kept.any (·.terms.length > 1) := by
+    rw [preprocess_zero]; split <;> rfl
+  have hrhs : get (probsSVD U (ms.map fun mb => (mb.w, mb.terms))) t = mixAt (probsSV U) ms t := by
+    unfold probsSVD mixAt
+    rw [get_mix, List.map_map, List.map_map]
+    rfl
+  rw [hrhs, ← hmix, (mixture_convex _).1 t, List.map_map]
+  unfold mixAt
+  congr 1
+  apply List.map_congr_left
+  intro mb hmb
+  simp only [Function.comp_apply, hθ]
+  congr 1
+  have hl : ∀ t ∈ mb.terms, ∀ s ∈ t.groups, s.length = m := fun t ht => (hkept mb hmb t ht).2
+  by_cases hs : (preprocess 0 0 ms).superposed = true
+  · rw [if_pos hs, memberGenericθ_zero U mb hl, memberGeneric_eq_spec]
+  · rw [if_neg hs]
+    have hlen : ¬ (mb.terms.length > 1) := by
+      intro hgt
+      apply hs
+      rw [hsup]
+      exact List.any_eq_true.2 ⟨mb, hmb, by simpa using hgt⟩
+    obtain ⟨w, terms⟩ := mb
+    match terms, hlen, hkept ⟨w, terms⟩ hmb with
+    | [], _, _ => rfl
+    | [term], _, hk =>
+      rw [← memberGeneric_fock_eq_memberFast U w term (hk term List.mem_cons_self).1,
+        memberGeneric_eq_spec]
+    | _ :: _ :: _, hlen, _ => exact absurd (by simp) hlen
+
+/-- … and for a unitary circuit, well-formed members and weights summing to 1 the normalisation is the
+identity: `probs_svd` returns `∑ᵢ wᵢ · probsSV(memberᵢ)` itself -/
+theorem probsSvd_exact_unitary {m : ℕ} (U : Matrix (Fin m) (Fin m) GQ) (hU : IsUnitary U)
+    (ms : List Member) (hw : ∀ mb ∈ ms, 0 ≤ mb.w) (hok : ∀ mb ∈ ms, TermsOK m mb)
+    (hnd : ∀ mb ∈ ms, (mb.terms.map (·.groups)).Nodup ∧ mb.terms ≠ [])
+    (hsum : (ms.map (·.w)).sum = 1) (t : Fock) :
+    get (probsSvd U 0 0 ms) t = (ms.map fun mb => mb.w * get (probsSV U mb.terms) t).sum := by
+  rw [probsSvd_exact U ms hw hok t]
+  have hone : mass (probsSVD U (ms.map fun mb => (mb.w, mb.terms))) = 1 := by
+    apply probsSVD_mass_one U hU
+    · intro p hp
+      obtain ⟨mb, hmb, rfl⟩ := List.mem_map.1 hp
+      refine ⟨fun t ht => (hok mb hmb t ht).2, (hnd mb hmb).1, ?_⟩
+      obtain ⟨t0, ht0⟩ := List.exists_mem_of_ne_nil _ (hnd mb hmb).2
+      exact svNorm2_ne_zero _ ⟨t0, ht0, (hok mb hmb t0 ht0).1⟩
+    · rw [List.map_map]; exact hsum
+  rw [normalize_of_mass_one _ hone]
+  unfold probsSVD
+  rw [get_mix, List.map_map, List.map_map]
+  rfl
+
+/-! non-vacuity of section 9 -/
+
+/-- `probsSV_fock_eq_conv`, `memberGeneric_fock_eq_memberFast`: a non-zero (complex) coefficient -/
+example : (⟨0, 1⟩ : GQ) ≠ 0 := by decide
+
+/-- `probability_eq_conv`, `probability_eq_probs_unitary`: a two-mode output, a two-mode tagged input with
+two tags in one mode -/
+example : ([1, 2] : Fock).length = 2 ∧ ([[2, 1], [2]] : AState).length = 2 := ⟨rfl, rfl⟩
+
+/-- `memberGenericθ_zero`, `preprocess_preserves_mixture`, `probsSvd_exact(_unitary)`: every hypothesis holds
+for the mixture below — a superposition of photon numbers 1 and 2 with a complex relative phase and a vacuum
+tag group (it IS split: `needsSplit`), a Fock member that is one of its sectors up to the positive factor 2
+(ONE dict key: its weight 2/3 receives the sector's 1/6), weights 1/3 + 2/3 = 1 -/
+example :
+    let ms : List Member := [⟨1 / 3, [⟨1, [[1, 0], [0, 0]]⟩, ⟨⟨0, 1⟩, [[1, 0], [0, 1]]⟩]⟩,
+      ⟨2 / 3, [⟨⟨2, 0⟩, [[1, 0], [0, 0]]⟩]⟩]
+    (∀ mb ∈ ms, 0 ≤ mb.w) ∧ (∀ mb ∈ ms, TermsOK 2 mb) ∧
+    (∀ mb ∈ ms, (mb.terms.map (·.groups)).Nodup ∧ mb.terms ≠ []) ∧ (ms.map (·.w)).sum = 1 ∧
+    (ms.any needsSplit = true) ∧ ((preprocess 0 0 ms).kept.map (·.w)) = [5 / 6, 1 / 6] := by
+  intro ms
+  refine ⟨?_, ?_, ?_, by norm_num [ms], by decide +kernel, by decide +kernel⟩
+  · intro mb hmb
+    simp only [ms, List.mem_cons, List.not_mem_nil, or_false] at hmb
+    rcases hmb with rfl | rfl <;> norm_num
+  · intro mb hmb
+    simp only [ms, List.mem_cons, List.not_mem_nil, or_false] at hmb
+    rcases hmb with rfl | rfl
+    · intro t ht
+      simp only [List.mem_cons, List.not_mem_nil, or_false] at ht
+      rcases ht with rfl | rfl
+      · refine ⟨by decide, ?_⟩
+        intro s hs
+        simp only [List.mem_cons, List.not_mem_nil, or_false] at hs
+        rcases hs with rfl | rfl <;> rfl
+      · refine ⟨by decide, ?_⟩
+        intro s hs
+        simp only [List.mem_cons, List.not_mem_nil, or_false] at hs
+        rcases hs with rfl | rfl <;> rfl
+    · intro t ht
+      simp only [List.mem_cons, List.not_mem_nil, or_false] at ht
+      subst ht
+      refine ⟨by decide, ?_⟩
+      intro s hs
+      simp only [List.mem_cons, List.not_mem_nil, or_false] at hs
+      rcases hs with rfl | rfl <;> rfl
+  · intro mb hmb
+    simp only [ms, List.mem_cons, List.not_mem_nil, or_false] at hmb
+    rcases hmb with rfl | rfl
+    · exact ⟨by decide, by simp⟩
+    · exact ⟨by decide, by simp⟩
+
+/-- `splitByN_weights`: a member with a non-zero norm, split into two sectors of weights 1/6 and 1/6 -/
+example : svNorm2 [⟨1, [[1, 0], [0, 0]]⟩, ⟨⟨0, 1⟩, [[1, 0], [0, 1]]⟩] ≠ 0 ∧
+    (splitByN ⟨1 / 3, [⟨1, [[1, 0], [0, 0]]⟩, ⟨⟨0, 1⟩, [[1, 0], [0, 1]]⟩]⟩).map (·.w) = [1 / 6, 1 / 6] := by
+  constructor
+  · have : svNorm2 [⟨1, [[1, 0], [0, 0]]⟩, ⟨⟨0, 1⟩, [[1, 0], [0, 1]]⟩] = 2 := by decide +kernel
+    rw [this]; norm_num
+  · decide +kernel
+
+/-- `sameKey_equal_distributions`: `|1,0⟩` and `3·|1,0⟩` are one key -/
+example : sameKey ⟨1 / 2, [⟨1, [[1, 0]]⟩]⟩ ⟨1 / 3, [⟨3, [[1, 0]]⟩]⟩ = true := by decide +kernel
+
 /-!
 Not proved here (validated by the correspondence on every run):
-* `probsSV U [⟨1, gs⟩] ≈ probsTagged U gs` — the generic path on a Fock member equals the fast path
-  (|∏ amplitudes|² summed over annotated outputs = convolution of the groups' probabilities);
-* `probabilityBS` (sum over `partition`s) `= get (probsTagged …)`;
 * a bound on the OUTPUT probabilities for the internal product/amplitude thresholds of
-  `list_tensor_product` / `_merge_sv` at a non-zero precision (`innerTP θ`, `memberGenericθ`): what
+  `list_tensor_product` / `_merge_sv` at a NON-ZERO precision (`innerTP θ`, `memberGenericθ U θ`, `θ > 0`): what
   one recombination leaves out is characterised exactly (`merge_threshold_exact`,
   `merge_threshold_drops_only_small`, `merge_threshold_dropped_mass`, `evolveTermθ_antitone`), but the
   propagation through the coherent sum of the terms and the final normalisation is evaluated
   numerically per case by the harness (`precision_budget`), not proved; the input trimming of
-  `_preprocess_svd` is bounded by `trim_error_bound`; `memberGenericθ U 0 ≈ memberGeneric U` is not proved either — the
-  thresholded model is executed at `θ = 0` and at the default precision and compared with the code
-  (and, at `θ = 0`, with the specification inside the driver) on every case;
-* the split by photon number (`splitByN`) preserves the mixture — executed and compared only; that equal keys
-  of the dict have equal distributions (hypothesis `hf` of `dict_accumulate_preserves_mixture`: the distribution of
-  a one-component state vector does not depend on its coefficient) is executed and compared only.
+  `_preprocess_svd` is bounded by `trim_error_bound`.  At precision 0 nothing is left: `probsSvd_exact`;
+* `preprocess` at a non-zero precision / `min_p` (the second application of the threshold after the split):
+  executed and compared only;
+* the identity of two multi-component state vectors as dict keys (native float comparison): not modelled
+  (distinct keys in `sameKey`).
 -/
 
 end PM.C03
